@@ -42,6 +42,7 @@ configured `escape_fn` (the VM model has the default escaper).
 import TeraModel.Lemmas.VmEscapeSink
 import TeraModel.Lemmas.VmEscapeBuiltins
 import TeraModel.Lemmas.VmBodyCheck
+import TeraModel.Lemmas.VmStaticCheck
 namespace Tera.C01Vm
 open Tera Tera.Vm
 
@@ -327,6 +328,23 @@ theorem C01Vm_render_no_special_checked (fuel : Fuel) (env : Env) (name : String
     name block ctx globalCtx hE (fun _ _ _ _ _ _ => trivial) hck hctx hg text
     (by rw [renderWith_noGuard]; exact h)).2
 
+/-- **C01 on the real VM model, with every hypothesis on the listings computable.**
+`c01StaticCheck env` (Model/VmBodyCheck.lean) evaluates on an environment's listings: autoescape on
+for every template; no constant and no parameter default marked Safe; no filter / function a
+listing applies registered `is_safe` ("no use of `safe`"); every chunk passes `bodyCheck`.  With
+the two parameter assumptions `ParamHyp` (the built-ins the listings use mint no Safe string —
+`C01Vm_builtin_model_mints_nothing` for the modelled ones; `{:?}` of an f64 is in
+`[0-9A-Za-z.+-]`) and a context holding no pre-marked Safe string: every `<`, `>`, `"`, `'` of the
+text `render` / `render_block` return occurs in literal template text — every listing, block,
+context, fuel. -/
+theorem C01Vm_static_check (fuel : Fuel) (env : Env) (name : String) (block : Option String)
+    (ctx globalCtx : Ctx) (hs : c01StaticCheck env = true) (hp : ParamHyp env)
+    (hctx : ∀ kv ∈ ctx, NoSafe kv.2) (hg : ∀ kv ∈ globalCtx, NoSafe kv.2) (text : List Char)
+    (h : render fuel env name block ctx globalCtx = .ok text) :
+    ∀ x ∈ text, isSpecialChar x = true → LitChar env x :=
+  C01Vm_render_no_special_checked fuel env name block ctx globalCtx (static_check_sound hs hp).1
+    (static_check_sound hs hp).2 hctx hg text h
+
 /-- The checker is sound against the REAL `step`: along any run on a chunk it accepts, whatever
 the state it is entered with, `bodyGuard` never fires — the guarded run IS the run. -/
 theorem bodyCheck_sound (rec : VmCtx → Chunk → State → RunRes) (env : Env) (vm : VmCtx) (c : Chunk)
@@ -439,7 +457,7 @@ theorem exEnv_hyp : EnvHyp exEnv := by
       refine ⟨fun n hn => (by cases hn), fun n hn => (by cases hn), fun v hv P => ?_⟩ <;>
       simp only [reduceCtorEq, VInstr.loadConst.injEq] at hv <;> subst hv <;> simp
   have hnf : ∀ n, ¬ FilterUsed exEnv n := fun n ⟨ch, hch, e, he, hn⟩ => (hinstr ch hch e he).1 n hn
-  have hnfn : ∀ n, ¬ FunctionUsed exEnv n := fun n ⟨ch, hch, e, he, hn⟩ => (hinstr ch hch e he).2.1 n hn
+  have hnfn : ∀ n, ¬ FunctionUsed exEnv n := fun n ⟨_, ch, hch, e, he, hn⟩ => (hinstr ch hch e he).2.1 n hn
   refine ⟨?_, fun n h => absurd h (hnf n), fun n h => absurd h (hnfn n), ?_, ?_, ?_, ?_, ?_, ?_⟩
   · intro x hx
     simp only [exEnv, List.mem_cons, List.not_mem_nil, or_false] at hx
@@ -533,6 +551,23 @@ example : bodyCheck exBodyMain = false := by decide +kernel
 example : bodyCheck { name := "t", code := [(.loadName "x", ["s"]), (.popJumpIfFalse 4, []),
     (.capture, []), (.endCapture, ["s"]), (.loadName "y", ["s"]), (.buildMap 0, []),
     (.renderComponent "c" true, ["s"])] } = false := by decide +kernel
+
+/-- the whole static check, evaluated: the example environment passes (with `safe` registered and
+unused) … -/
+example : c01StaticCheck exEnv = true := by decide +kernel
+
+/-- … one whose listing applies `safe` does not … -/
+example : c01StaticCheck { exEnv with templates := [("t", { exTpl with chunk :=
+    { name := "t", code := [(.loadName "x", ["s"]), (.buildMap 0, []), (.applyFilter "safe", ["s"]),
+                             (.writeTop, [])] } })] } = false := by decide +kernel
+
+/-- … nor one with autoescape off, a constant marked Safe, or the hand-written body call -/
+example : c01StaticCheck { exEnv with templates := [("t", { exTpl with autoescape := false })] } = false := by
+  decide +kernel
+example : c01StaticCheck { exEnv with templates := [("t", { exTpl with chunk :=
+    { name := "t", code := [(.loadConst (.arr [.str true "<".toList]), []), (.writeTop, [])] } })] } = false := by
+  decide +kernel
+example : c01StaticCheck exBodyEnv = false := by decide +kernel
 
 /-- the accepted listing renders: the body is escaped once, inside the capture -/
 example : (match render ⟨3, 100⟩
